@@ -148,7 +148,7 @@ Definition handle_digest_report (st : store) (seq : N) (fseid : N) : N * list sr
   match get_session fseid st with
   | None => (seq, [])                                   (* return before getSeqNum *)
   | Some s =>
-      let seq' := (seq + 1) mod 2 ^ 32 in               (* getSeqNum: pConn.seqNum.seq++ on uint32 *)
+      let seq' := (seq + 1) mod 2 ^ 24 in               (* getSeqNum: seq = (seq + 1) & 0xFFFFFF *)
       let '(pid, fid) := first_core (s_pdrs s) in
       if far_blocks fid (s_fars s) then (seq', [])
       else if pid =? 0 then (seq', [])
